@@ -106,6 +106,8 @@ class WorldGen:
                 qs.append("qadapter|%d|%s|%d|%s|m" % (q, ts, p, name))
                 qs.append("subscribers|%d|%s|%d" % (q, ts, p))
             rnd.shuffle(qs)
+            if rnd.random() < P.get("single_entry", 0.15):
+                return qs[:1]              # this entry point alone must notice whatever happens next
             return qs[:rnd.randint(2, len(qs))]
 
         def place(t, toks):
@@ -278,7 +280,101 @@ class WorldGen:
                     live.append(("reg", base, ("i%d" % y,), p, "n%d" % j, v))
             L.append(q)
 
-        scen = [(scen_hit, P.get("scen_hit", 0.05)), (scen_rbases_spec, P.get("scen_rbases", 0.03)), (scen_rebuild, P.get("scen_rebuild", 0.03))]
+        def scen_multi():
+            """a key of two or three required specifications of which the earlier ones have been looked up before (the
+            lookup object already watches them) and a later one has not; then only that later one changes"""
+            r = rnd.randrange(st["nr"])
+            p, nm = rnd.choice(PROV), rnd.choice(NAMES)
+            cand = [y for y in range(1, n + 1) if y not in fixed]
+            b0 = rnd.randint(1, n)
+            ys = [y for y in cand if y != b0 and y not in c03.reach(ib, b0)]
+            ar = rnd.choice([2, 2, 3])
+            early = [keytok() for _ in range(ar - 1)]
+            v = val()
+            use_class = not ys or rnd.random() < 0.5
+            if use_class:
+                c = rnd.choice(list(cb))
+                os2 = [o for o in objs if objs[o] == c]
+                late = "o%d" % rnd.choice(os2) if os2 and rnd.random() < 0.7 else "c%d" % c
+                change = "%s|%d|%d" % (rnd.choice(["add", "first", "only"]), c, b0)
+            else:
+                y = rnd.choice(ys)
+                down = {jj for jj in range(1, n + 1) if y in c03.reach(ib, jj)}
+                b2 = dict(ib)
+                b2[y] = [b0] + [b for b in ib[y] if b and b != b0]
+                if b0 in down or not all(c03.cpython_mirror_mro(b2, jj) is not None for jj in down):
+                    return
+                ib[y] = b2[y]
+                late = "i%d" % rnd.choice(sorted(down))
+                change = "isetbases|%d|%s" % (y, " ".join(map(str, b2[y])))
+            pos = rnd.randint(1, ar - 1)
+            regkey = early[:pos] + ["i%d" % b0] + early[pos:]
+            qkey = early[:pos] + [late] + early[pos:]
+            L.append("reg|%d|%s|%d|%s|%d %d" % (r, " ".join(regkey), p, nm, v[0], v[1]))
+            live.append(("reg", r, tuple(regkey), p, nm, v))
+            for t in early[:pos]:
+                L.append(rnd.choice(["lookup1|%d|%s|%d|%s" % (r, t, p, nm), "lookup|%d|%s|%d|%s" % (r, t, p, nm), "lookupAll|%d|%s|%d" % (r, t, p)]))
+            kinds_ = ["lookup|%d|%s|%d|%s" % (r, " ".join(qkey), p, nm), "lookupAll|%d|%s|%d" % (r, " ".join(qkey), p)]
+            if all(t[0] in "os" for t in qkey):
+                kinds_.append("qadapter|%d|%s|%d|%s|m" % (r, " ".join(qkey), p, nm))
+            q = rnd.choice(kinds_)
+            L.extend([q, change, q])
+
+        def scen_cold_super():
+            """the first interface query that touches a new subclass S(P, Mixin) goes through super(P, instance-of-S),
+            after super(P, instance-of-P) has been answered"""
+            ps = [c for c in cb]
+            pc = rnd.choice(ps)
+            m_id, s_id = max(cb) + 1, max(cb) + 2
+            o1, o2 = max(objs) + 1, max(objs) + 2
+            try:
+                pycls[m_id] = type("K%d" % m_id, (object,), {})
+                pycls[s_id] = type("K%d" % s_id, (pycls[pc], pycls[m_id]), {})
+            except TypeError:
+                return
+            cb[m_id], cb[s_id] = [], [pc, m_id]
+            inv_cls[pycls[m_id]], inv_cls[pycls[s_id]] = m_id, s_id
+            L.append("class|%d|" % m_id)
+            L.append("%s|%d|%d" % (rnd.choice(["add", "only"]), m_id, rnd.randint(1, n)))
+            if rnd.random() < 0.5:
+                L.append("add|%d|%d" % (pc, rnd.randint(1, n)))
+            L.append("inst|%d|%d" % (o1, pc))
+            objs[o1] = pc
+            L.append("prov|s%d.%d" % (pc, o1))
+            L.append("class|%d|%d %d" % (s_id, pc, m_id))
+            L.append("inst|%d|%d" % (o2, s_id))
+            objs[o2] = s_id
+            L.append("prov|s%d.%d" % (pc, o2))
+            L.append("prov|o%d" % o2)
+
+        def scen_entry():
+            """one entry point alone, on a registry below the one that changes: asked, base mutated, asked, base
+            mutated back, asked — nothing else touches the lower registry's lookup object in between"""
+            base = rnd.randrange(st["nr"])
+            sub_ = st["nr"]
+            st["nr"] += 1
+            rb[sub_] = [base]
+            L.append("newreg|%d|%d" % (sub_, base))
+            o = rnd.choice(list(objs))
+            x, p, nm = rnd.randint(1, n), rnd.choice(PROV), rnd.choice(NAMES)
+            L.append("dp|%d|%d" % (o, x))
+            eps = ["lookup|%d|o%d|%d|%s" % (sub_, o, p, nm), "lookup1|%d|o%d|%d|%s" % (sub_, o, p, nm), "lookupAll|%d|o%d|%d" % (sub_, o, p),
+                   "names|%d|o%d|%d" % (sub_, o, p), "qadapter|%d|o%d|%d|%s|q" % (sub_, o, p, nm), "qadapter|%d|o%d|%d|%s|h" % (sub_, o, p, nm),
+                   "qadapter|%d|o%d|%d|%s|m" % (sub_, o, p, nm), "subs|%d|o%d|%d" % (sub_, o, p), "subscribers|%d|o%d|%d" % (sub_, o, p)]
+            q = rnd.choice(eps)
+            v = val()
+            while v[0] % 4 == 0:
+                v = val()              # a factory that returns an object (identity 0 mod 4 = a factory returning None)
+            if q.startswith("subs"):
+                m1 = "sub|%d|i%d|%d|%d %d" % (base, x, p, v[0], v[1])
+                m2 = "unsub|%d|i%d|%d|0 %d" % (base, x, p, v[1])
+            else:
+                m1 = "reg|%d|i%d|%d|%s|%d %d" % (base, x, p, nm, v[0], v[1])
+                m2 = "unreg|%d|i%d|%d|%s" % (base, x, p, nm)
+            L.extend([q, m1, q, m2, q])
+
+        scen = [(scen_entry, P.get("scen_entry", 0.03)), (scen_multi, P.get("scen_multi", 0.06)), (scen_cold_super, P.get("scen_cold_super", 0.03)),
+                (scen_hit, P.get("scen_hit", 0.05)), (scen_rbases_spec, P.get("scen_rbases", 0.03)), (scen_rebuild, P.get("scen_rebuild", 0.03))]
         nsteps = rnd.randint(*(P.get("steps_big", (10, 40)) if big else P.get("steps", (6, 26))))
         W = P["weights"]       # reg unreg sub unsub isetbases classdecl objdecl rbases rebuild
         kinds = ["reg", "unreg", "sub", "unsub", "isetbases", "classdecl", "objdecl", "rbases", "rebuild"]
